@@ -386,13 +386,8 @@ def run_obligation(prop, tier, tu, o, cfg, unwind_hints, seed, wd):
             # cap reached: if other properties already fail (e.g. an out-of-bounds loop that never terminates) go on and
             # try to confirm those; otherwise there is no verdict
             capped = "unwinding bound cap %d reached for %s" % (maxunwind, ",".join(p["name"] for p in uw[:4]))
-            others = [p for p in props if p["status"] == "FAILURE" and ".unwind." not in p["name"] and not p["desc"].startswith("VPCOVER")]
-            if others and use_trace:
-                r["unwind_capped"] = capped; break
-            if others and not use_trace:
-                use_trace = True; r["_cap_once"] = True
-                if r.get("_cap_twice"): r.update(status="inconclusive", reason=capped); break
-                r["_cap_twice"] = True; continue
+            if not use_trace:
+                use_trace = True; continue      # one full run at the cap: concrete failures there are still worth confirming
             r.update(status="inconclusive", reason=capped); break
     r["cbmc_iterations"] = iters
     r["unwind"] = unwind; r["unwindset"] = unwindset
@@ -417,10 +412,10 @@ def run_obligation(prop, tier, tu, o, cfg, unwind_hints, seed, wd):
         bad_cov = []          # capped run: only used to confirm concrete failures, never to discharge
     if not covers:
         r.update(status="inconclusive", reason="harness has no reachability witness (vp_cover)"); return r
-    if bad_cov:
-        r.update(status="inconclusive", reason="vacuous: witness %s not reachable" % ",".join(p["desc"] for p in bad_cov)); return r
-    r["witness_ok"] = True
     fails = [p for p in props if p["status"] == "FAILURE" and not p["desc"].startswith("VPCOVER")]
+    if bad_cov and not [p for p in fails if ".unwind." not in p["name"]]:
+        r.update(status="inconclusive", reason="vacuous: witness %s not reachable" % ",".join(p["desc"] for p in bad_cov)); return r
+    r["witness_ok"] = not bad_cov
     unknown = [p for p in props if p["status"] not in ("SUCCESS", "FAILURE")]
     tr = traces_from(out)
     r["_traces"] = tr
